@@ -4,10 +4,11 @@ from __future__ import annotations
 import itertools
 
 from harness import matryoshka as M
+from harness import poolapi
 
 ID = "C03"
 PROPS = "props/C03.v"
-NEEDS = ["check_exclusion_bounds_overlap", "adjust_exclusion_bounds", "clamp_to_bounds", "max_proposal_age_us"]
+NEEDS = ["check_exclusion_bounds_overlap", "adjust_exclusion_bounds", "clamp_to_bounds", "max_proposal_age_us", "max_proposal_age_op_us"]
 
 
 class C03Stream(M.MatStream):
@@ -48,7 +49,9 @@ class C03Stream(M.MatStream):
 
 
 def streams():
-    return [C03Stream(), M.CallsStream(), M.GroupsStream()]
+    # pool_api: proposals made through the real Battery / PV / EV-charger pool classes, with pauses around the
+    # maximum proposal age (expiry end to end: the pools stamp proposals, the manager's timer sweeps them)
+    return [C03Stream(), M.CallsStream(), M.GroupsStream(), poolapi.PoolApiStream()]
 
 META = {
     "technique": "Coq proof (invariant of the priority sweep by induction over the proposal list; bucket = live-set refinement by snoc-induction over histories; sort permutation-invariance) + T-tie translation of _bounds.py + differential correspondence of Matryoshka vs model evaluated in Coq",
